@@ -1,6 +1,6 @@
 /- Driver for C14: the Core model's line protocol (MvModel/CoreDrv.lean) with
-     crash ft=<n>          → crash recovery as the source has it (`Mem.crashCfg RECOVER_ENABLES_VEC`:
-                             tools/gen/C14.py reads from recover_wal whether fixes/C14.diff is in)
+     crash ft=<n>          → `Core.crash` when the source has repair 5c6fd4b (RECOVER_ENABLES_VEC, read from
+                             recover_wal by tools/gen/C14.py), the pre-repair `Mem.crashPre` otherwise
    and the index-representation simulator of MvModel/VecIdx.lean (state kept beside the handle):
      vsim-new hnsw=<0|1>   → ok          fresh simulator; hnsw = crate built with feature vec / hnsw_bench
      vsim-put <id>…        → ok          embedded puts, applied by the next rebuild
@@ -18,7 +18,7 @@ def c14Step (s : Mem × VSim) (ws : List String) : (Mem × VSim) × String :=
   match ws with
   | "crash" :: rest =>
     let kv := kvs rest
-    let r := s.1.crashCfg Mv.Gen.C14.RECOVER_ENABLES_VEC (getN kv "ft")
+    let r := if Mv.Gen.C14.RECOVER_ENABLES_VEC then s.1.crash (getN kv "ft") else s.1.crashPre (getN kv "ft")
     ((r.1.setWalSize (getN kv "ws" r.1.walSize), s.2), showOut r.2)
   | "vsim-new" :: rest => ((s.1, { hnsw := getB (kvs rest) "hnsw" }), "ok")
   | "vsim-put" :: ids => ((s.1, (ids.filterMap simEnt).foldl VSim.put s.2), "ok")
